@@ -135,6 +135,25 @@ theorem ptdp_unpack_noisy (s t : PTDP.State) (h : PTDP_WF s) (e1 e2 : Nat) (he1 
   have hb : ¬ (s.payload ++ rest).length < s.payload.length := by simp
   simp only [hn, hb, if_false, List.take_left', List.drop_left']
 
+/-- the bytes `PTDP.pack` returns, as a function of the three fields it reads -/
+def ptdpBytes (payload : Bytes) (fragment content : Nat) : R Bytes :=
+  match Golay.encodeStr ((payload.length >>> 12) + (fragment <<< 4) + (content <<< 6)) with
+  | .error e => .error e
+  | .ok a =>
+    match Golay.encodeStr (payload.length &&& 0xFFF) with
+    | .error e => .error e
+    | .ok b => .ok (a ++ b ++ payload)
+
+theorem ptdp_pack_snd (s : PTDP.State) : (PTDP.pack s).2 = ptdpBytes s.payload s.fragment s.content := by
+  unfold PTDP.pack ptdpBytes
+  simp only
+  cases Golay.encodeStr ((s.payload.length >>> 12) + (s.fragment <<< 4) + (s.content <<< 6)) with
+  | error e => rfl
+  | ok a =>
+    cases Golay.encodeStr (s.payload.length &&& 0xFFF) with
+    | error e => rfl
+    | ok b => rfl
+
 /-! ### PTFR -/
 
 def PTFR_WF (s : PTFR.State) : Prop :=
@@ -195,6 +214,42 @@ theorem ptfr_unpack_noisy (s t : PTFR.State) (h : PTFR_WF s) (e : Nat) (he : e <
   simp only [a1, a2, a3, a4, PTFR.setPayload, List.length_nil, Nat.add_zero, List.nil_append]
   have : ¬ s.payload.length > t.length := by omega
   simp only [this, if_false]
+
+/-! ### PTDP / PTFR on arbitrary buffers -/
+
+/-- the value the Golay decoder assigns to a 3-byte string (always defined: `decodeInt_ok`) -/
+def gval (w : Bytes) : Nat :=
+  match Golay.decodeBytes w with
+  | .ok r => r
+  | .error _ => 0
+
+theorem decodeBytes_gval (w : Bytes) (h : w.length = 3) : Golay.decodeBytes w = .ok (gval w) := by
+  obtain ⟨r, hr⟩ := decodeInt_ok (beNat w)
+  have : Golay.decodeBytes w = .ok r := by rw [decodeBytes_eq w h, hr]
+  simp [gval, this]
+
+/-- the length a PTDP header declares -/
+def ptdpDeclared (b : Bytes) : Nat := gval (slice b 3 6) + ((gval (slice b 0 3) &&& 0xF) <<< 12)
+
+theorem split6 (b : Bytes) (_h : 6 ≤ b.length) : b = slice b 0 3 ++ slice b 3 6 ++ b.drop 6 := by
+  simp only [slice, List.drop_zero]
+  have h1 : List.take 3 b ++ List.drop 3 (List.take 6 b) = List.take 6 b := by
+    have := List.take_append_drop 3 (List.take 6 b)
+    rw [List.take_take] at this
+    simpa using this
+  rw [h1, List.take_append_drop]
+
+theorem ptdp_unpack_any (t : PTDP.State) (b : Bytes) (h : 6 ≤ b.length) :
+    PTDP.unpack t b = ptdpCore t (gval (slice b 0 3)) (gval (slice b 3 6)) (b.drop 6) := by
+  have h1 : (slice b 0 3).length = 3 := by simp; omega
+  have h2 : (slice b 3 6).length = 3 := by simp; omega
+  have := ptdp_unpack_words t (slice b 0 3) (slice b 3 6) (b.drop 6) _ _ h1 h2
+    (decodeBytes_gval _ h1) (decodeBytes_gval _ h2)
+  rwa [← split6 b h] at this
+
+theorem ptdp_unpack_short (t : PTDP.State) (b : Bytes) (h : b.length < 6) :
+    PTDP.unpack t b = (t, .error .ptdpRemaining) := by
+  simp [PTDP.unpack, h]
 
 /-! ### bit errors on the wire: XOR on the three bytes of a word is XOR on the 24-bit value -/
 
